@@ -81,14 +81,14 @@ class M(Model):
             out.append(("walls changed on an illegal action", ""))
         at_target = self._pos(s.agent_position) == self._pos(s.target_position)
         if not at_target:  # (a non-terminal state never has the agent on the target)
-            want_last = int(s.step_count) + 1 >= self.T
-            if (int(ts2.step_type) == 2) != want_last:
-                out.append(("illegal action changed the course of the episode",
+            # "the episode continues": an ignored move must not end the episode by itself.  Whether the step is
+            # LAST *at* the time limit is C11's business, and the step counter is not part of the documented
+            # effect of an ignored move - neither is asserted here.
+            if int(ts2.step_type) == 2 and int(s.step_count) + 1 < self.T:
+                out.append(("illegal action ended the episode",
                             f"step_type={int(ts2.step_type)} step_count={int(s2.step_count)} time_limit={self.T}"))
             if float(ts2.reward) != 0.0:
                 out.append(("illegal action rewarded", f"reward={float(ts2.reward)}"))
-        if int(s2.step_count) != int(s.step_count) + 1:
-            out.append(("step_count not incremented", f"{int(s.step_count)} -> {int(s2.step_count)}"))
         return out
 
     # ------------------------------------------------------------------ C07
@@ -112,13 +112,7 @@ class M(Model):
                 out.append(("walls changed", ""))
             if self._pos(prev.target_position) != (tr, tc):
                 out.append(("target moved", f"{self._pos(prev.target_position)} -> {(tr, tc)}"))
-            if int(s.step_count) != int(prev.step_count) + 1:
-                out.append(("step_count not incremented", f"{int(prev.step_count)} -> {int(s.step_count)}"))
-            pr, pc = self._pos(prev.agent_position)
-            if abs(pr - r) + abs(pc - c) > 1:
-                out.append(("agent moved more than one cell", f"({pr},{pc}) -> ({r},{c})"))
-        elif int(s.step_count) != 0:
-            out.append(("initial step_count != 0", str(int(s.step_count))))
+            # (step_count and "one cell per step" are transition rules - C09/C11 -, not physical consistency)
         return out
 
     # ------------------------------------------------------------------ C08
@@ -152,9 +146,7 @@ class M(Model):
         walls = np.asarray(s0.walls)
         if walls.shape != (self.R, self.C):
             return [("walls shape", str(walls.shape))]
-        if walls.dtype != np.bool_:
-            out.append(("walls dtype", str(walls.dtype)))
-        free = ~walls.astype(bool)
+        free = ~walls.astype(bool)  # (dtype conformance is C01's business)
         ar, ac = self._pos(s0.agent_position)
         tr, tc = self._pos(s0.target_position)
         if not self._inside(ar, ac):
@@ -172,8 +164,7 @@ class M(Model):
             if (free & ~seen).any():
                 out.append(("maze not fully connected from the agent's start",
                             f"{int((free & ~seen).sum())} free cells unreachable, e.g. {np.argwhere(free & ~seen)[0].tolist()}"))
-        if int(s0.step_count) != 0:
-            out.append(("initial step_count != 0", str(int(s0.step_count))))
+        # (step_count is not an invariant of the generated problem instance: not asserted under C10)
         return out
 
     # ------------------------------------------------------------------ C12
